@@ -87,6 +87,7 @@ func main() {
 						if obj, ok := p.TypesInfo.Defs[fd.Name].(*types.Func); ok {
 							lines = append(lines, funcShortName(obj)+"\t"+sigKey(obj.Type().(*types.Signature)))
 							if fd.Body != nil {
+								lines = append(lines, goParamLines(p, fd, funcShortName(obj))...)
 								ast.Inspect(fd.Body, func(n ast.Node) bool {
 									if as, ok := n.(*ast.AssignStmt); ok && as.Tok == token.DEFINE && len(as.Lhs) == 1 && len(as.Rhs) == 1 {
 										if id, ok := as.Lhs[0].(*ast.Ident); ok {
